@@ -17,6 +17,7 @@ import (
 	"sync/atomic"
 	"time"
 
+	appclient "github.com/cloudwego/hertz/pkg/app/client"
 	"github.com/cloudwego/hertz/pkg/common/hlog"
 	"github.com/cloudwego/hertz/pkg/network"
 	"github.com/cloudwego/hertz/pkg/network/standard"
@@ -786,6 +787,78 @@ func work(w *mon.W) {
 			}
 		}
 		w.Shape(mon.Hash64("get-timeout", strings.Join(desc, ";")))
+	})
+	// public-client: the application-level client (pkg/app/client) keeps one connection pool
+	// per host; MaxConnsPerHost bounds that host's connections also when the first requests
+	// to a host arrive together (a cold client, or after the idle host entry was dropped).
+	// The application's host-client hook runs while the pool is being set up.
+	w.Cases("public-client", uint64(w.Pick(60, 1200)), func(c *mon.Case) {
+		r := c.R
+		log := &runLog{}
+		d := &dialer{log: log, r: r.Fork()}
+		maxConns := 1 + r.Intn(2)
+		hook := r.Bool()
+		opts := []config.ClientOption{appclient.WithDialer(d), appclient.WithMaxConnsPerHost(maxConns), appclient.WithMaxConnWaitTimeout(2 * time.Second), appclient.WithClientReadTimeout(2 * time.Second)}
+		if hook {
+			opts = append(opts, appclient.WithHostClientConfigHook(func(hc interface{}) error {
+				// application code of its own pace
+				for i := 0; i < 50; i++ {
+					runtime.Gosched()
+				}
+				return nil
+			}))
+		}
+		cl, err := appclient.NewClient(opts...)
+		if err != nil {
+			return
+		}
+		G := 4 + r.Intn(8)
+		c.Detail = func() interface{} {
+			return map[string]interface{}{"family": "public-client", "goroutines": G, "max_conns_per_host": maxConns, "host_client_hook": hook}
+		}
+		var wg sync.WaitGroup
+		var maxOpen int32
+		start := make(chan struct{})
+		var bad atomic.Value
+		for g := 0; g < G; g++ {
+			wg.Add(1)
+			g := g
+			go func() {
+				defer wg.Done()
+				<-start
+				for k := 0; k < 3; k++ {
+					id := fmt.Sprintf("pc%d-%d-%d", c.G, g, k)
+					req, resp := protocol.AcquireRequest(), protocol.AcquireResponse()
+					req.SetRequestURI("http://peer/x?id=" + id + "&plan=ok")
+					err := cl.Do(context.Background(), req, resp)
+					if o := atomic.LoadInt32(&d.open); o > atomic.LoadInt32(&maxOpen) {
+						atomic.StoreInt32(&maxOpen, o)
+					}
+					if err == nil && !strings.HasPrefix(string(resp.Body()), "id="+id+";") {
+						bad.Store(fmt.Sprintf("Do(%s) returned the body %q", id, resp.Body()))
+					}
+					protocol.ReleaseRequest(req)
+					protocol.ReleaseResponse(resp)
+					w.Count("public_client_calls", 1)
+				}
+			}()
+		}
+		close(start)
+		wg.Wait()
+		open := atomic.LoadInt32(&d.open)
+		if open > atomic.LoadInt32(&maxOpen) {
+			maxOpen = open
+		}
+		cl.CloseIdleConnections()
+		if v := bad.Load(); v != nil {
+			c.Violate("matching", "%v", v)
+			return
+		}
+		if int(maxOpen) > maxConns || int(atomic.LoadInt32(&d.dialed)) > maxConns {
+			c.Violate("host-bound", "client.Client with MaxConnsPerHost=%d, %d goroutines starting together on a cold client (host-client hook: %v): %d connections were dialled to the one host, up to %d open at once", maxConns, G, hook, atomic.LoadInt32(&d.dialed), maxOpen)
+			return
+		}
+		w.Shape(mon.Hash64("public-client", G, maxConns, hook, int(c.I)))
 	})
 	// the pending-gauge family: Do with an already-cancelled context must leave the gauge at 0
 	w.Cases("cancelled", uint64(w.Pick(50, 500)), func(c *mon.Case) {
